@@ -20,6 +20,13 @@ def cfg : Cfg :=
     popenStoresRc := Gen.C15.popenStoresRc
     popenValidateFirst := Gen.C15.popenValidateFirst
     loopsOverAlive := Gen.C15.loopsOverAlive
-    aliveIsSet := Gen.C15.aliveIsSet }
+    aliveIsSet := Gen.C15.aliveIsSet
+    pidRejectsZero := Gen.C15.pidRejectsZero
+    pidRejectsNeg := Gen.C15.pidRejectsNeg
+    pidRejectsPos := Gen.C15.pidRejectsPos
+    flagsTimeout := Gen.C15.flagsTimeout
+    flagsBlocking := Gen.C15.flagsBlocking
+    rcBeforeCb := Gen.C15.rcBeforeCb
+    goneBeforeCb := Gen.C15.goneBeforeCb }
 
 end Psutil.C15
